@@ -160,7 +160,10 @@ fn inv(op: &Op, _ctx: &dyn Context, operands: &mut dyn CoordinateSet) -> usize {
         let (sin_c, cos_c) = c.sin_cos();
 
         // The authalic latitude, 𝜉
-        let xi = (cos_c * sin_xi_0 + (d * (y - y_0) * sin_c * cos_xi_0) / rho).asin();
+        // For the image of a pole the argument is +-1 up to rounding (clamp keeps a NaN a NaN)
+        let xi = (cos_c * sin_xi_0 + (d * (y - y_0) * sin_c * cos_xi_0) / rho)
+            .clamp(-1.0, 1.0)
+            .asin();
 
         let lat = ellps.latitude_authalic_to_geographic(xi, &authalic);
 
